@@ -101,7 +101,7 @@ func DecodeContainerChildren(hdr BoxHeader, startPos, endPos uint64, r io.Reader
 	// Never read beyond the end of the container, and keep track of how much each child reads
 	cr := &countingReader{r: io.LimitReader(r, int64(endPos-startPos))}
 	for {
-		child, err := DecodeBox(pos, cr)
+		child, extraHdr, err := decodeBoxAndExtraHdr(pos, cr)
 		if err == io.EOF {
 			return children, nil
 		}
@@ -109,7 +109,8 @@ func DecodeContainerChildren(hdr BoxHeader, startPos, endPos uint64, r io.Reader
 			return children, err
 		}
 		children = append(children, child)
-		pos += child.Size()
+		// A box with 64-bit size field occupies 8 bytes more in the input than its (compact) Size()
+		pos += child.Size() + extraHdr
 		if pos-startPos != cr.nrRead {
 			return nil, fmt.Errorf("child %s size mismatch in %s: %d - %d", child.Type(), hdr.Name, pos-startPos, cr.nrRead)
 		}
@@ -153,12 +154,13 @@ func DecodeContainerChildrenSR(hdr BoxHeader, startPos, endPos uint64, sr bits.S
 		if pos == endPos {
 			break
 		}
-		child, err := DecodeBoxSR(pos, sr)
+		child, extraHdr, err := decodeBoxSRAndExtraHdr(pos, sr)
 		if err != nil {
 			return children, err
 		}
 		children = append(children, child)
-		pos += child.Size()
+		// A box with 64-bit size field occupies 8 bytes more in the input than its (compact) Size()
+		pos += child.Size() + extraHdr
 		relPosFromSize := sr.GetPos() - initPos
 		if int(pos-startPos) != relPosFromSize {
 			return nil, fmt.Errorf("child %s size mismatch in %s: %d - %d", child.Type(), hdr.Name, pos-startPos, relPosFromSize)
